@@ -80,13 +80,40 @@ def shard(shard, nshards, tier, seed, scratch):
     stats = Stats()
     failures = run_hypothesis(strategy(), lambda c: check_case(c, stats), max(1, total // nshards), seed,
                               shrink_budget=300 if tier == 'quick' else 2000)
+    failures += _large(shard, stats, 'select')
     return {'stats': stats.export(), 'failures': failures}
 
 
 def replay(case, clause=None):
+    if isinstance(case, dict) and case.get('kind') == 'large':
+        f = _large(1, Stats(), case['which'])
+        if f:
+            raise Violation(f[0]['clause'], f[0]['detail'])
+        return
     check_case(case, None, 'table')
     check_case(case, None, 'objects')
 
 
 def probe_known(k):
     return False
+
+
+def _large(shard, stats, which):
+    """Deterministic large tables (thousands of records) judged by the same reference."""
+    from .. import largecases
+    out = []
+    if shard != 1:
+        return out
+    for case in largecases.large_cases(which):
+        try:
+            relcheck.assert_rel(case, {'records'}, 'table')
+            stats.bump('large-case')
+            stats.evaluations += 1
+        except Violation as v:
+            d = dict(v.detail or {})
+            for k in ('got', 'expected', 'after', 'before'):
+                if k in d:
+                    d[k] = d[k][:3] if isinstance(d[k], list) else d[k]
+            out.append({'clause': 'large-' + v.clause, 'detail': d, 'case': {'kind': 'large', 'which': which}})
+            break
+    return out
